@@ -434,3 +434,14 @@ def ob_d(ob):
                     raise HarnessError("d-rotation counterexample at v=%s did not reproduce (%s)" % (vv, name))
                 return
             ob.verdict(v, "d:" + name)
+
+
+# ---- shared obligation: translation behaviour of the dipole (shift by total charge times t, none for neutral molecules) follows from the dipole being the one implied by charges and density ----
+from . import C14 as _C14_mod  # noqa: E402
+
+
+@obligation(PID, "g", title="[shared with C14.b] " + [e for e in __import__("engine.ob", fromlist=["REGISTRY"]).REGISTRY["C14"] if e[1] is _C14_mod.ob_b][0][3])
+def ob_g_shared(ob):
+    """translation behaviour of the dipole (shift by total charge times t, none for neutral molecules) follows from the dipole being the one implied by charges and density"""
+    ob.note("this obligation is the one registered as C14.b; it is also decided here because translation behaviour of the dipole (shift by total charge times t, none for neutral molecules) follows from the dipole being the one implied by charges and density")
+    _C14_mod.ob_b(ob)
